@@ -1172,6 +1172,18 @@ impl Archive {
         self.block_table.as_ref()
     }
 
+    /// Replace the tables files are looked up in
+    ///
+    /// In-place modification publishes its pending changes this way, so that everything
+    /// read through this archive reflects them. HET/BET tables describe the state the
+    /// archive was opened in and are dropped: the hash and block table are complete.
+    pub(crate) fn set_tables(&mut self, hash_table: HashTable, block_table: BlockTable) {
+        self.hash_table = Some(hash_table);
+        self.block_table = Some(block_table);
+        self.het_table = None;
+        self.bet_table = None;
+    }
+
     /// Get HET table reference
     pub fn het_table(&self) -> Option<&HetTable> {
         self.het_table.as_ref()
@@ -2218,6 +2230,11 @@ impl Archive {
     /// Make sure `len` stored bytes at `pos` can exist in the archive file before a
     /// buffer of that size is allocated: sizes and positions come from untrusted tables.
     fn ensure_stored_range(&self, pos: u64, len: u64) -> Result<()> {
+        // An empty file added in place sits at the end of the archive file, which can
+        // be behind the last byte written so far; nothing is read for it
+        if len == 0 {
+            return Ok(());
+        }
         let file_len = self.reader.get_ref().metadata()?.len();
         match pos.checked_add(len) {
             Some(end) if end <= file_len => Ok(()),
